@@ -340,8 +340,10 @@ def maskWgt (r16 : Rat → Rat) (w : Rat) : Rat :=
 /-- one row of the p-value mask: `(gene index, stored distance)` for the genes
 with corrected p < p_th that violate no floor (`_p_values_worker`; the CSR row
 lists the genes in increasing order) -/
-def pValuesWorkerRowWith (pOrder : List Nat) (r16 : Rat → Rat) (t : Thresholds)
+def pValuesWorkerRowWith (pOrder : List Nat) (r16 : Rat → Rat) (t : Thresholds) (n1 n2 : Nat)
     (praw : List Rat) (g : List GeneScore) : Except Err (List (Nat × Rat)) :=
+  -- "no markers for a pair in which either cluster has fewer than two cells": the row stays empty
+  if n1 < 2 ∨ n2 < 2 then .ok [] else
   let pvals := approxCorrectTtestWith pOrder praw t.pTh
   match penetranceDistance t g with
   | .error e => .error e
@@ -352,9 +354,9 @@ def pValuesWorkerRowWith (pOrder : List Nat) (r16 : Rat → Rat) (t : Thresholds
         if decide (p < t.pTh) && !x.invalid then some (i, maskWgt r16 x.wgt) else none
       | _, _ => none))
 
-def pValuesWorkerRow (r16 : Rat → Rat) (t : Thresholds) (praw : List Rat) (g : List GeneScore) :
-    Except Err (List (Nat × Rat)) :=
-  pValuesWorkerRowWith (argsort (gather (interestingIdx praw t.pTh) praw)) r16 t praw g
+def pValuesWorkerRow (r16 : Rat → Rat) (t : Thresholds) (n1 n2 : Nat) (praw : List Rat)
+    (g : List GeneScore) : Except Err (List (Nat × Rat)) :=
+  pValuesWorkerRowWith (argsort (gather (interestingIdx praw t.pTh) praw)) r16 t n1 n2 praw g
 
 /-- the consecutive-pairs test of both mask-route workers:
 `delta = np.unique(np.diff(idx_values));
@@ -412,9 +414,9 @@ def getValidityMask (nValid nGenes : Nat) (row : List (Nat × Rat)) (geneIdx : O
 
 /-- one pair through the p-value-mask route -/
 def maskRouteWith (pOrder : List Nat) (r16 : Rat → Rat) (t : Thresholds) (nValid : Nat)
-    (geneIdx : Option (List Nat)) (praw : List Rat) (g : List GeneScore) (mean1 mean2 : List Rat) :
-    Except Err Out :=
-  match pValuesWorkerRowWith pOrder r16 t praw g with
+    (geneIdx : Option (List Nat)) (n1 n2 : Nat) (praw : List Rat) (g : List GeneScore)
+    (mean1 mean2 : List Rat) : Except Err Out :=
+  match pValuesWorkerRowWith pOrder r16 t n1 n2 praw g with
   | .error e => .error e
   | .ok row =>
     match getValidityMask nValid g.length row geneIdx with
